@@ -749,7 +749,7 @@ func splitSpan(sp Span, cellOffset int, mode TextReadMode) (left Span, right Spa
 		return left, right, Span{}
 	}
 
-	if mode == TextReadModeRune && sp.Width == len(sp.Text) {
+	if mode == TextReadModeRune && oneCellPerByte(sp) {
 		// Simple mode where each rune is one cell - can't have wide clusters
 		leftText := sp.Text[:cellOffset]
 		rightText := sp.Text[cellOffset:]
@@ -823,6 +823,22 @@ func splitSpan(sp Span, cellOffset int, mode TextReadMode) (left Span, right Spa
 	right.Width = sp.Width - leftWidth
 
 	return left, right, Span{}
+}
+
+// oneCellPerByte reports whether every byte of the span's text is a character
+// of its own that occupies one cell, so that a cell offset is a byte offset.
+// Width == len(Text) alone does not say so: U+2E3A is three bytes long and
+// three cells wide.
+func oneCellPerByte(sp Span) bool {
+	if sp.Width != len(sp.Text) {
+		return false
+	}
+	for i := 0; i < len(sp.Text); i++ {
+		if sp.Text[i] >= utf8.RuneSelf {
+			return false
+		}
+	}
+	return true
 }
 
 func byteIndexForCell(text []byte, cellOffset int, mode TextReadMode) (int, int) {
@@ -1037,7 +1053,7 @@ func replaceRangeSpans(line *spanLine, x int, n int, insert Span, mode TextReadM
 			if sp.Text == "" && insert.Text == "" && sp.Rune == insert.Rune {
 				return
 			}
-			if sp.Text != "" && insert.Text != "" && mode == TextReadModeRune && sp.Width == len(sp.Text) && insert.Width == len(insert.Text) {
+			if sp.Text != "" && insert.Text != "" && mode == TextReadModeRune && oneCellPerByte(sp) && oneCellPerByte(insert) {
 				sp.Text = sp.Text[:startOffset] + insert.Text + sp.Text[startOffset+n:]
 				spans[startIdx] = sp
 				return
